@@ -10,7 +10,7 @@
  *         push: installs my node, whose next is the CURRENT head at the instant of the CAS.
  *         A pop that returns NULL saw head == NULL and wrote nothing.
  */
-#include "verif_rt.h"
+#include "verif_rt.h"  /* (groups.py passes -DVERIF_LOOP_FLAG) */
 #include "machine_specific.h" /* FIRST: the verification copy whose compare_and_swap2 body is the contract call (include guard keeps the original out) */
 #include "mpsc_fifo.h" /* node type */
 typedef struct {
@@ -52,7 +52,7 @@ static void spec_step(int site) {
 }
 static void spec_env(int site) {
   if (verif_bool()) return;                    /* nothing happened: counter, head and the stack's links are as they were */
-  uintptr_t c2 = verif_u64(); VASSUME(c2 > CNT && c2 < (1ull << 62)); CNT = c2;   /* A6: no 2^64 wrap */
+  uintptr_t c2 = verif_u64(); VASSUME(c2 > CNT && c2 < (1ull << 61)); CNT = c2;   /* A6: no 2^64 wrap */
   HEAD = pick();
   A.next = pick(); B.next = pick(); C.next = pick();   /* nodes were popped, reused, pushed again in any order */
   if (G.is_push) VASSUME(HEAD != &MINE); else if (G.updates) VASSUME(HEAD != G.taken || 1);
@@ -62,7 +62,7 @@ static void spec_read(int site, void* addr) { if (!G.is_push && addr == (void*)&
 
 static void init_any(int is_push) {
   G.is_push = is_push; G.updates = 0; G.saw_null = 0; G.taken = 0;
-  CNT = verif_u64(); VASSUME(CNT < (1ull << 61)); HEAD = pick(); A.next = pick(); B.next = pick(); C.next = pick(); MINE.next = pick();
+  CNT = verif_u64(); VASSUME(CNT < (1ull << 60)); HEAD = pick(); A.next = pick(); B.next = pick(); C.next = pick(); MINE.next = pick();
   spec_snap();
 }
 void h_pop(void) { init_any(0); mpmc_lifo_node_t* r = mpmc_lifo_pop(&L); verif_sync(-1);
